@@ -106,4 +106,5 @@ Proof.
       * eapply noab_bind; [exact H1 | intros; eapply noab_truth; eassumption |]. intros ba st2 _ H2. inversion H2; subst; exact I.
     + inversion Hev; subst; exact I.
     + inversion Hev; subst; exact I.
+    + inversion Hev; subst; exact I.
 Qed.
